@@ -27,17 +27,17 @@ type consEngine struct{}
 
 // fetch-fault alphabet
 const (
-	ffOk = iota
-	ffRedispatch   // NOT_LEADER, LEADER_NOT_AVAILABLE, UNKNOWN_TOPIC_OR_PARTITION, REPLICA_NOT_AVAILABLE
-	ffOtherCode    // reported to the application, then redispatch
-	ffOmitBlock    // incomplete response
-	ffSilent       // no answer until the read timeout
-	ffDrop         // connection closed
-	ffThrottled    // throttled, empty
-	ffEmpty        // valid block, no records
-	ffPartial      // record set cut inside a batch
-	ffLeaderMove   // leadership moves to another broker
-	ffOutOfRange   // OFFSET_OUT_OF_RANGE: the consumer must stop
+	ffOk         = iota
+	ffRedispatch // NOT_LEADER, LEADER_NOT_AVAILABLE, UNKNOWN_TOPIC_OR_PARTITION, REPLICA_NOT_AVAILABLE
+	ffOtherCode  // reported to the application, then redispatch
+	ffOmitBlock  // incomplete response
+	ffSilent     // no answer until the read timeout
+	ffDrop       // connection closed
+	ffThrottled  // throttled, empty
+	ffEmpty      // valid block, no records
+	ffPartial    // record set cut inside a batch
+	ffLeaderMove // leadership moves to another broker
+	ffOutOfRange // OFFSET_OUT_OF_RANGE: the consumer must stop
 	nFetchFaults
 )
 
@@ -47,34 +47,34 @@ var redispatchCodes = []sarama.KError{sarama.ErrNotLeaderForPartition, sarama.Er
 var otherFetchCodes = []sarama.KError{sarama.ErrRequestTimedOut, sarama.ErrBrokerNotAvailable, sarama.ErrKafkaStorageError, sarama.ErrUnknown}
 
 type consScenario struct {
-	Brokers    int
-	Parts      int
-	Base       int64
-	Logs       [][]sarama.VRec // per partition, offsets filled at load time
-	Later      [][]sarama.VRec // appended after the subscription (start = newest)
-	Aborted    [][]sarama.VSimAborted
-	LSO        []int64 // -1 = high watermark
-	Version    sarama.KafkaVersion
-	Magic      int8
-	Codec      int8
-	BatchSizes []int
-	AlignTo    int
-	MaxBatches int
-	LogAppend  bool
-	StartKind  []string // oldest | newest | literal
-	StartOff   []int64
-	Faults     []int
-	FaultCodes []sarama.KError
-	CutFrac    []float64
-	Pace       string // prompt | slow | bursty
-	SlowEvery  int
-	ChanBuf    int
-	FetchDefault int32
-	HonourMax  bool
-	Committed  bool // ReadCommitted
+	Brokers        int
+	Parts          int
+	Base           int64
+	Logs           [][]sarama.VRec // per partition, offsets filled at load time
+	Later          [][]sarama.VRec // appended after the subscription (start = newest)
+	Aborted        [][]sarama.VSimAborted
+	LSO            []int64 // -1 = high watermark
+	Version        sarama.KafkaVersion
+	Magic          int8
+	Codec          int8
+	BatchSizes     []int
+	AlignTo        int
+	MaxBatches     int
+	LogAppend      bool
+	StartKind      []string // oldest | newest | literal
+	StartOff       []int64
+	Faults         []int
+	FaultCodes     []sarama.KError
+	CutFrac        []float64
+	Pace           string // prompt | slow | bursty
+	SlowEvery      int
+	ChanBuf        int
+	FetchDefault   int32
+	HonourMax      bool
+	Committed      bool // ReadCommitted
 	ShuffleAborted bool
-	Interceptors []string // count | mutate | panic
-	Transactional bool
+	Interceptors   []string // count | mutate | panic
+	Transactional  bool
 }
 
 func (sc *consScenario) describe() map[string]interface{} {
@@ -99,23 +99,23 @@ type gotMsg struct {
 }
 
 type consResult struct {
-	sc         *consScenario
-	newErr     error
-	got        [][]gotMsg
-	errs       [][]string
+	sc          *consScenario
+	newErr      error
+	got         [][]gotMsg
+	errs        [][]string
 	closedEarly []bool
-	resolved   []int64 // start offset as resolved by the cluster
-	fetched    []sarama.VSimFetched
-	hooks      []hookEv
-	stuck      bool
-	stuckWho   []string
-	inconcl    string
-	closeOK    bool
-	icCalls    map[string][]int // "part/offset" -> interceptor indices in call order
-	expected   [][]sarama.VRec
-	faultsUsed int
-	limit      []int64
-	stalled    []bool
+	resolved    []int64 // start offset as resolved by the cluster
+	fetched     []sarama.VSimFetched
+	hooks       []hookEv
+	stuck       bool
+	stuckWho    []string
+	inconcl     string
+	closeOK     bool
+	icCalls     map[string][]int // "part/offset" -> interceptor indices in call order
+	expected    [][]sarama.VRec
+	faultsUsed  int
+	limit       []int64
+	stalled     []bool
 }
 
 type consInterceptor struct {
